@@ -234,7 +234,11 @@ def dtype_plumbing(ctx, tk, f):
                          node=c.node, engine="E6")
             continue
         ok = any(np_call(x, {"result_type", "promote_types"}) for x in walk(dt))
-        ctx.decide("C04.g", f, what, True if ok else None, node=c.node, engine="E6")
+        # ... or in the column's own element type, leaving the promotion to the ufunc itself (exact for int64 against uint64)
+        own = dt.k == "attr" and dt.a[1] == "dtype" and c.a[1] and str(dt.a[0]) == str(c.a[1][0])
+        recv = dt.k == "attr" and dt.a[1] == "dtype" and dt.a[0].k == "param" and f.params and dt.a[0].a[0] == f.params[0]
+        ctx.decide("C04.g", f, what + " (or in its own element type)", True if (ok or own) else (False if recv else None),
+                   "the column is cast to the receiver's element type before the operation", node=c.node, engine="E6")
     g = ctx.func(RA + "_broadcast_rows")
     ga = ctx.fa(g)
     for n, c in find_calls(ga, lambda c: c.a[0].k == "attr" and c.a[0].a[1] == "broadcast_values"):
